@@ -16,8 +16,14 @@ def _touches_next(g):
     return any(n['k'] == 'MemberExpr' and n.get('dn') == NEXT for n in g.own_nodes())
 
 
+def _takes_senders(g):
+    return any(n['k'] == 'CXXMemberCallExpr' and n.get('cn', '').split('::')[-1] == 'exchange' and
+               any(g.nodes[d].get('dn', '').endswith('::_sender') for d in g.descendants(n['i']))
+               for n in g.own_nodes())
+
+
 def _is_helper(fn, g):
-    if g.cfg is None or not _touches_next(g):
+    if g.cfg is None or not (_touches_next(g) or _takes_senders(g)):
         return False
     same_cls = bool(g.cls) and g.cls == fn.cls and 'virtual' not in g.flags
     file_local = not g.cls and g.file == fn.file
@@ -49,6 +55,14 @@ SITES = [
     ('yaclib::detail::MutexImpl::GetHead', _exchange_on('::_sender', 'list'),
      'every waiter taken from _sender stays reachable from the head that GetHead returns; with FIFO=true the returned '
      'chain runs from the oldest waiter to the newest', (), _fifo_head),
+    # the grant paths that start a new batch: end to end from the detach of _sender (inside GetHead or any other
+    # helper) to the waiter that is submitted / resumed and to what is parked in _receiver
+    ('yaclib::detail::MutexImpl::UnlockHereAwait', _exchange_on('::_sender', 'list'),
+     'the waiter that is granted the lock is the oldest of the detached batch and the rest is parked oldest first '
+     '(FIFO=true)', 'grant', _fifo_head),
+    ('yaclib::detail::MutexImpl::AwaitUnlockOn', _exchange_on('::_sender', 'list'),
+     'the waiter that is granted the lock is the oldest of the detached batch and the rest is parked oldest first '
+     '(FIFO=true)', 'grant', _fifo_head),
     ('yaclib::Strand::Call', _exchange_on('::_jobs', 'list'),
      'every job of the batch is Called exactly once, in the order the jobs were pushed', ('Call',), None),
     ('yaclib::Strand::Drop', _exchange_on('::_jobs', 'list'), 'every job of the batch is Dropped exactly once'),
@@ -72,13 +86,30 @@ def check(ctx, fb, rule, only=None, minimum_sites=1):
         for f in sorted(fb.by_qn(qn), key=lambda f: f.full):
             if f.cfg is None:
                 continue
-            a = shape.Analysis(fb, inputs, _is_helper, NEXT, ordered_finishers=ordered)
-            key = 'R-SHAPE %s' % qn
-            try:
-                exits = a.check_function(f)
-            except shape.Unsupported as e:
-                ctx.broken('R-SHAPE %s: %s' % (f.full, e))
             need = want_dir(f) if want_dir else None
+            key = 'R-SHAPE %s' % qn
+            if ordered == 'grant':
+                # a grant path: handing a waiter on (Submit / resuming it through Curr()) finishes it; with FIFO the
+                # one handed on must be the oldest pending one and a chain parked in a member must run oldest first
+                def on_store(an, fn, node, heap, val, need=need):
+                    if need and heap.direction_of(val) not in ('single', need):
+                        if heap.direction_of(val) == 'mixed':
+                            raise shape.Unsupported('direction of the chain parked at %s' % fn.loc(node))
+                        an.problem('order', fn, node, 'the rest of the batch is parked newest first although this '
+                                   'instantiation promises arrival order (FIFO): the following grants run backwards')
+                a = shape.Analysis(fb, inputs, _is_helper, NEXT, ordered_finishers=('escape', 'Curr') if need else (),
+                                   finishers=('Call', 'Drop', 'Curr'), on_store=on_store)
+                try:
+                    exits = a.check_function(f, must_return_all=False)
+                except shape.Unsupported as e:
+                    ctx.broken('R-SHAPE %s: %s' % (f.full, e))
+                need = None
+            else:
+                a = shape.Analysis(fb, inputs, _is_helper, NEXT, ordered_finishers=ordered)
+                try:
+                    exits = a.check_function(f)
+                except shape.Unsupported as e:
+                    ctx.broken('R-SHAPE %s: %s' % (f.full, e))
             undecided = False
             if need and not a.problems:  # a chain that loses or cycles nodes is reported as such, not as an order issue
                 for h1, rv in exits:
